@@ -23,6 +23,28 @@ theorem convertible_mask (m : BitVec 32) (h0 : m &&& 1#32 = 0#32) (h : (m >>> 1)
     m = 0#32 ∨ m = 2#32 ∨ m = 4#32 ∨ m = 8#32 := by
   bv_decide
 
+theorem shift1_bits (m : BitVec 32) :
+    (shift1 m).getLsbD 0 = false ∧ (shift1 m).getLsbD 1 = m.getLsbD 0 ∧ (shift1 m).getLsbD 2 = m.getLsbD 1
+    ∧ (shift1 m).getLsbD 3 = m.getLsbD 2 ∧ (shift1 m).getLsbD 4 = false ∧ (shift1 m).getLsbD 5 = m.getLsbD 4
+    ∧ (shift1 m).getLsbD 6 = m.getLsbD 5 ∧ (shift1 m).getLsbD 7 = m.getLsbD 6 := by
+  unfold shift1; bv_decide
+
+theorem or_bits (m : BitVec 32) :
+    (m ||| 1#32).getLsbD 0 = true ∧ (m ||| 1#32 ||| 0x10#32).getLsbD 0 = true
+    ∧ (m ||| 1#32).getLsbD 4 = m.getLsbD 4 ∧ (m ||| 1#32 ||| 0x10#32).getLsbD 4 = true
+    ∧ (m ||| 1#32).getLsbD 1 = m.getLsbD 1 ∧ (m ||| 1#32 ||| 0x10#32).getLsbD 1 = m.getLsbD 1
+    ∧ (m ||| 1#32).getLsbD 2 = m.getLsbD 2 ∧ (m ||| 1#32 ||| 0x10#32).getLsbD 2 = m.getLsbD 2
+    ∧ (m ||| 1#32).getLsbD 5 = m.getLsbD 5 ∧ (m ||| 1#32 ||| 0x10#32).getLsbD 5 = m.getLsbD 5
+    ∧ (m ||| 1#32).getLsbD 6 = m.getLsbD 6 ∧ (m ||| 1#32 ||| 0x10#32).getLsbD 6 = m.getLsbD 6 := by
+  bv_decide
+
+theorem bit0_and (m : BitVec 32) (h : m.getLsbD 0 = false) : m &&& 1#32 = 0#32 := by bv_decide
+
+theorem sub_succ (pc pp : BitVec 32) : pc + 1#32 - pp = (pc - pp) + 1#32 := by bv_decide
+theorem add1_sub (pc : BitVec 32) : pc + 1#32 - pc = 1#32 := by bv_decide
+theorem add5_sub (pc : BitVec 32) : pc + 5#32 - pc = 5#32 := by bv_decide
+theorem sub_sub5 (pc : BitVec 32) : pc - (pc - 5#32) = 5#32 := by bv_decide
+
 /-- The conversion of one operand: the decoder gives back the original bytes, the stored byte 4 is 00/FF again, and the byte
     that an earlier rejected candidate looked at (non-MS by the mask invariant) is still non-MS after the conversion. -/
 theorem x86_conv_dec_enc (pc5 mask : BitVec 32) (b1 b2 b3 b4 : UInt8)
@@ -46,5 +68,37 @@ theorem x86_conv_dec_enc (pc5 mask : BitVec 32) (b1 b2 b3 b4 : UInt8)
   · have h1 := h1 rfl
     simp only [x86Conv, x86Loop, x86Fuel, idx_of_8, x86Store, x86Src, test86, u32, u8, Prod.mk.injEq] at *
     bv_decide
+
+/-- Inner-loop termination: if the byte the loop inspects is non-MS in `src` (mask invariant), the second iteration always
+    breaks; more fuel does not change the result. Low `L = 32 - 8i` bits: `dest2 = ~src`, so the inspected byte of `dest2` is the
+    complement of a non-MS byte. -/
+theorem x86_loop_two (e : Bool) (pc5 mask src : BitVec 32) (fuel : Nat)
+    (hm : mask = 0#32 ∨ mask = 2#32 ∨ mask = 4#32 ∨ mask = 8#32)
+    (h3 : mask = 2#32 → test86 (u8 (src >>> 16)) = false) (h2 : mask = 4#32 → test86 (u8 (src >>> 8)) = false)
+    (h1 : mask = 8#32 → test86 (u8 src) = false) :
+    x86Loop e pc5 mask (fuel + 2) src = x86Loop e pc5 mask 2 src := by
+  rcases hm with rfl | rfl | rfl | rfl
+  · simp [x86Loop]
+  · have h3 := h3 rfl
+    cases fuel with
+    | zero => rfl
+    | succ f =>
+      cases e <;>
+      · simp only [x86Loop, idx_of_2, test86, u8, if_true, if_false, Bool.false_eq_true] at *
+        bv_decide
+  · have h2 := h2 rfl
+    cases fuel with
+    | zero => rfl
+    | succ f =>
+      cases e <;>
+      · simp only [x86Loop, idx_of_4, test86, u8, if_true, if_false, Bool.false_eq_true] at *
+        bv_decide
+  · have h1 := h1 rfl
+    cases fuel with
+    | zero => rfl
+    | succ f =>
+      cases e <;>
+      · simp only [x86Loop, idx_of_8, test86, u8, if_true, if_false, Bool.false_eq_true] at *
+        bv_decide
 
 end XzVerif.BitWords
